@@ -39,6 +39,7 @@ from liquid2.exceptions import UnknownFilterError
 from liquid2.expression import Expression
 from liquid2.limits import int_literal
 from liquid2.limits import to_int
+from liquid2.token import RESERVED_WORDS
 from liquid2.unescape import unescape
 
 if TYPE_CHECKING:
@@ -556,10 +557,12 @@ class Path(Expression):
     def __str__(self) -> str:
         it = iter(self.path)
         root = next(it)
-        if isinstance(root, str) and RE_PROPERTY.fullmatch(root):
-            buf = [root]
-        elif isinstance(root, Path):
+        if isinstance(root, Path) or not isinstance(root, str):
             buf = [f"[{root}]"]
+        elif RE_PROPERTY.fullmatch(root) and not (
+            len(self.path) == 1 and root in RESERVED_WORDS
+        ):
+            buf = [root]
         else:
             buf = [f"[{_quote_string(_escape_string(root))}]"]
         for segment in it:
@@ -1931,7 +1934,7 @@ class Identifier(str):
 
 def identifier_str(name: str) -> str:
     """Return _name_ as it is written in markup, quoted if it's not a plain word."""
-    if RE_PROPERTY.fullmatch(name):
+    if RE_PROPERTY.fullmatch(name) and name not in RESERVED_WORDS:
         return name
     return _quote_string(_escape_string(name))
 
